@@ -10,9 +10,11 @@
         related cells  =>  FeatureTokens(F) \cap QueryTokens(Q) # {}          (Sound)
 
    Both token functions are transcribed from the Go code in CellTokens.tla, the feature side twice: the
-   design, and the code as built (level-0 cells get no s2 token).  TLC checks, for every pair of coverings:
-   Sound and Precise for the design; SoundAboveFace for the code as built (the level-0 skip is its only gap);
-   SoundAsBuilt is expected to be VIOLATED (CellIndexGap.cfg) and the counterexample is replayed on the code.
+   design (= the code since the fix of the level-0 skip), and the code as it was found (level-0 cells get no
+   s2 token).  TLC checks, for every pair of coverings: Sound and Precise for the design; SoundAboveFace for
+   the as-found variant (the level-0 skip is its only gap); SoundAsBuilt is expected to be VIOLATED
+   (CellIndexGap.cfg): the counterexample, a feature covering holding a face cell, is one of the coverings
+   executed on the real functions.
 
    Binding (tools/props/C04.py, harness/cmd/vh-spatial): every covering TLC enumerates is printed as a
    CASE line with the expected token sets; the harness maps it to real s2.CellIDs, runs the real
